@@ -237,6 +237,10 @@ def _drive_producer(proxy: Any, m: dict[str, Any], op: dict[str, Any], impl: Any
             ev.append(["batch", streams.norm_rb(ab.batch, ab.custom_metadata)])
             ab.release()
             n += 1
+            if n > 40:  # scripts have <= 6 steps
+                ev.append(["runaway"])
+                terminal = True
+                break
     except RpcError as e:
         ev.append(["error", e.error_type, e.error_message])
         terminal = True
